@@ -2,6 +2,7 @@ package rules
 
 import (
 	"fmt"
+	"go/token"
 	"sort"
 	"strings"
 
@@ -15,12 +16,85 @@ var defScanRows = map[string]string{
 	"pairs":       "every definition scanner call receives the name and the component of one and the same entry of the registered components, and the factory's definition registry",
 	"all-entries": "every scanner is applied to every registered component exactly once, scanners in list order",
 	"error":       "if a scanner reported an error for any component the scan ends after that scanner with a non-nil error (no later scanner runs); otherwise the result is nil",
+	"joined":      "on every explored schedule the join adds up - no WaitGroup counter goes negative, nobody waits for ever - and no scanner runs after the scan has returned (also when the scan runs as far ahead of its goroutines as the program lets it)",
+}
+
+// scanGos: the go statements the scan table's runs went through, per scan routine.
+type scanTableResult struct {
+	rs   rows
+	runs int
+	und  string
+	gos  map[token.Pos]bool
+	// scanner calls made by the scan routine's own goroutine (not by one it started)
+	syncCalls int
+}
+
+func defScanTableMemo(c *core.Ctx, scan *ssa.Function, nScanners int) *scanTableResult {
+	key := fmt.Sprintf("scan-table:%s:%d", core.FnName(scan), nScanners)
+	if v, ok := c.Memo.Load(key); ok {
+		return v.(*scanTableResult)
+	}
+	res := &scanTableResult{gos: map[token.Pos]bool{}}
+	res.rs, res.runs, res.und = defScanTable(c, scan, nScanners, res)
+	c.Memo.Store(key, res)
+	return res
+}
+
+// scanFansOut: fn is part of the definition scan, whose table holds in every row, and every scanner call of every run
+// was made by a goroutine the scan started: the order in which the scan hands its entries out is not the order in which
+// they are processed.
+func scanFansOut(c *core.Ctx, fn *ssa.Function) bool {
+	bs, _ := findBootstrap(c)
+	if bs == nil || len(bs.parallel) != 1 {
+		return false
+	}
+	scan := bs.parallel[0]
+	reached := map[*ssa.Function]bool{}
+	reachesCall(scan, func(*ssa.CallCommon) bool { return false }, reached)
+	reached[scan] = true
+	if !reached[fn] && !reached[core.TopLevel(fn)] {
+		return false
+	}
+	res := defScanTableMemo(c, scan, 2)
+	if res.und != "" || len(res.gos) == 0 || res.syncCalls > 0 {
+		return false
+	}
+	for row := range defScanRows {
+		if rr := res.rs[row]; rr == nil || len(rr.bad) > 0 {
+			return false
+		}
+	}
+	return true
+}
+
+// scanTableDecides: the go statement belongs to the definition scan, whose table went through it and holds in every row.
+func scanTableDecides(c *core.Ctx, g *ssa.Go) bool {
+	bs, _ := findBootstrap(c)
+	if bs == nil || len(bs.parallel) != 1 {
+		return false
+	}
+	res := defScanTableMemo(c, bs.parallel[0], 2)
+	if res.und != "" || !res.gos[g.Pos()] {
+		return false
+	}
+	// the table shows two components to two scanners: that stands for every number of them only if the scan compares
+	// no length or index with a constant beyond that
+	if ks, tooBig := sizeConstants(c, bs.parallel[0]); len(ks) > 0 || tooBig {
+		return false
+	}
+	for row := range defScanRows {
+		if rr := res.rs[row]; rr == nil || len(rr.bad) > 0 {
+			return false
+		}
+	}
+	return true
 }
 
 // defScanTable interprets the parallel definition scan on a sequential schedule (each goroutine runs to completion at
 // its go statement): which calls are made with which arguments, and what becomes of their errors, does not depend on
 // the interleaving.  Mutual exclusion and waiting are decided by C20 / C14.
-func defScanTable(c *core.Ctx, scan *ssa.Function, nScanners int) (rs rows, runs int, undecided string) {
+func defScanTable(c *core.Ctx, scan *ssa.Function, nScanners int, res *scanTableResult) (rs rows, runs int, undecided string) {
+	gos := res.gos
 	ro := c.Roles()
 	rs = rows{}
 	getComps := c.IfaceMethod("container", "Factory", "GetRegisteredComponents")
@@ -31,8 +105,9 @@ func defScanTable(c *core.Ctx, scan *ssa.Function, nScanners int) (rs rows, runs
 	}
 	var calls []string
 	var failedAt map[string]bool
+	late := 0
 	build := func() (absint.Oracle, []absint.Value, []absint.Value) {
-		calls, failedAt = nil, map[string]bool{}
+		calls, failedAt, late = nil, map[string]bool{}, 0
 		t := newTbl(c)
 		factory := absint.NewTok("factory", "factory")
 		reg := absint.NewTok("definitionRegistry", "registry")
@@ -52,6 +127,12 @@ func defScanTable(c *core.Ctx, scan *ssa.Function, nScanners int) (rs rows, runs
 			for _, x := range a {
 				parts = append(parts, absint.Show(x))
 			}
+			if ip.Returned {
+				late++
+			}
+			if ip.CurrentGoroutine() == 0 {
+				res.syncCalls++
+			}
 			calls = append(calls, strings.Join(parts, ","))
 			if ip.Choose(2, "scanner outcome") == 1 {
 				failedAt[absint.Show(a[0])] = true
@@ -70,7 +151,15 @@ func defScanTable(c *core.Ctx, scan *ssa.Function, nScanners int) (rs rows, runs
 		return t, args, nil
 	}
 	check := func(ip *absint.Interp, out absint.Outcome) {
-		w := fmt.Sprintf("calls=%v failed=%v => %s", calls, failedAt, showOutcome(out))
+		w := fmt.Sprintf("%s: calls=%v failed=%v => %s", schedName(ip), calls, failedAt, showOutcome(out))
+		rs.hit("joined")
+		if out.Deadlock != nil || (out.Panic != nil && strings.Contains(out.Panic.Msg, "WaitGroup")) {
+			rs.fail("joined", w)
+			return
+		}
+		if late > 0 {
+			rs.fail("joined", w+fmt.Sprintf(" (%d scanner call(s) after the return)", late))
+		}
 		if out.Panic != nil {
 			rs.fail("error", "PANIC "+w)
 			return
@@ -113,33 +202,38 @@ func defScanTable(c *core.Ctx, scan *ssa.Function, nScanners int) (rs rows, runs
 			rs.fail("error", w)
 		}
 	}
-	var tape []int
-	for {
-		orc, args, bind := build()
-		ip := absint.New(orc)
-		ip.IsLog = core.IsLogCall
-		ip.InScope = c.InScope
-		ip.GoInline = true
-		ip.Tape = tape
-		out := ip.Run(scan, args, bind)
-		runs++
-		if out.Undecided != nil {
-			return rs, runs, out.Undecided.Msg
+	for _, parentFirst := range []bool{true, false} {
+		var tape []int
+		for {
+			orc, args, bind := build()
+			ip := absint.New(orc)
+			ip.IsLog = core.IsLogCall
+			ip.InScope = c.InScope
+			ip.Sched, ip.ParentFirst = true, parentFirst
+			ip.OnGo = func(g *ssa.Go, enter bool) { gos[g.Pos()] = true }
+			ip.Tape = tape
+			out := ip.Run(scan, args, bind)
+			runs++
+			if out.Undecided != nil {
+				return rs, runs, out.Undecided.Msg
+			}
+			check(ip, out)
+			next, ok := absint.NextTape(padTape(tape, len(ip.Arity)), ip.Arity)
+			if !ok || runs > 5000 {
+				break
+			}
+			tape = next
 		}
-		check(ip, out)
-		next, ok := absint.NextTape(padTape(tape, len(ip.Arity)), ip.Arity)
-		if !ok || runs > 5000 {
-			return rs, runs, ""
-		}
-		tape = next
 	}
+	return rs, runs, ""
 }
 
 // defScanRules reports the scan table of the bootstrap's parallel part under the given rule ids.
 func defScanRules(c *core.Ctx, r *core.Report, ruleOf func(row string) string) (goBodies map[*ssa.Function]bool, ok bool) {
 	goBodies = map[*ssa.Function]bool{}
+	ro := c.Roles()
 	first := ""
-	for _, k := range []string{"pairs", "all-entries", "error"} {
+	for _, k := range []string{"pairs", "all-entries", "error", "joined"} {
 		if first == "" {
 			first = ruleOf(k)
 		}
@@ -182,13 +276,23 @@ func defScanRules(c *core.Ctx, r *core.Report, ruleOf func(row string) string) (
 				if g, isGo := in.(*ssa.Go); isGo {
 					if cal := g.Common().StaticCallee(); cal != nil {
 						goBodies[cal] = true
+						// ... and what the goroutine calls on its way to the scanner (a worker's per-job routine)
+						isScan := func(com *ssa.CallCommon) bool { return core.IsInvoke(com, ro.DRPPPostProcess) }
+						seen := map[*ssa.Function]bool{}
+						reachesCall(cal, isScan, seen)
+						for h := range seen {
+							if c.InScope(h) && reachesCall(h, isScan, map[*ssa.Function]bool{}) {
+								goBodies[h] = true
+							}
+						}
 					}
 				}
 			}
 		}
 	}
 	cons := "scan-table@" + core.FnName(scan)
-	srs, n, und := defScanTable(c, scan, 2)
+	sres := defScanTableMemo(c, scan, 2)
+	srs, n, und := sres.rs, sres.runs, sres.und
 	r.Count("scan_table_runs", n)
 	if und != "" {
 		r.Undecided(first, cons, c.FnPos(scan), "abstract interpretation left the model: "+und)
